@@ -326,3 +326,5 @@ class PopulateWorkdir(Target):
 
 TARGETS = [ComputeInfo(), CanMemoize(), PopulateWorkdir(), Serialiser()]
 LEMMAS = [SerialiserInjectivity()]
+import contracts.C09 as _c09
+BOUNDED = [_c09.DiscoverReferencesBounded()]
